@@ -39,7 +39,7 @@ func (c06) Floors(tier string, c map[string]int64) []string {
 			}
 		}
 	}
-	for _, k := range []string{"payload_accepted", "payload_rejected", "linkage/null", "linkage/one", "linkage/list", "linkage/wrong-type", "remarshal_ok"} {
+	for _, k := range []string{"payload_accepted", "payload_rejected", "linkage/null", "linkage/one", "linkage/list", "linkage_offered/wrong-type", "linkage_offered/null-for-to-many", "remarshal_ok"} {
 		if c[k] == 0 {
 			out = append(out, "never observed: "+k)
 		}
@@ -171,6 +171,20 @@ func (m c06) payload(c *Ctx, p *c06payload) {
 	t := &p.Type
 	data := p.bytes()
 	desc := func() string { return clip(string(data), 1500) + " against type " + clip(jsonStr(t), 600) }
+	for _, rl := range t.Rels {
+		if text := p.Rels[rl.Name]; text != "" {
+			ids, isNull, _, ok := readLinkage(text)
+			if ok && isNull && !rl.ToOne {
+				c.Count("linkage_offered/null-for-to-many")
+			}
+			for _, x := range ids {
+				if ok && x[0] != rl.ToType {
+					c.Count("linkage_offered/wrong-type")
+					break
+				}
+			}
+		}
+	}
 	var res jsonapi.Resource
 	var err error
 	var schema *jsonapi.Schema
